@@ -309,6 +309,7 @@ class Gen:
         self.rng = rng
         self.val = 0
         self.pid = 0
+        self.targets = set()      # modules some earlier statement already loads (a later `with` would come too late)
 
     def v(self):
         self.val += 1
@@ -349,7 +350,8 @@ class Gen:
                 loads.append(r.choice(earlier))
         for t in loads:
             ti = info[t]
-            if not is_entry and r.random() < 0.45:
+            was_target = t in self.targets
+            if r.random() < (0.45 if not is_entry else 0.1):
                 # @forward
                 pfx = r.choice(PFXS) if r.random() < 0.45 else None
                 pv = lambda n: (pfx or "") + n
@@ -368,7 +370,7 @@ class Gen:
                 if pfx:
                     feat.add("prefix")
                 cfg = []
-                if r.random() < 0.22:
+                if r.random() < (0.22 if t not in self.targets else 0.04):
                     names = list(ti["vis"]["v"]) or ["x"]
                     for n in r.sample(names, min(len(names), r.choice([1, 1, 2]))):
                         if not is_private(n):
@@ -378,6 +380,7 @@ class Gen:
                     if cfg:
                         feat.add("forward-with")
                 head.append(("W", self.spelling(t, ti["partial"]), pfx, visr, cfg))
+                self.targets.add(t)
                 allowed = lambda lst, n: (visr[0] == "A" or (visr[0] == "S" and n in lst) or (visr[0] == "H" and n not in lst))
                 for n, g in ti["vis"]["v"].items():
                     if allowed(visr[1] if visr[0] != "A" else [], pv(n)):
@@ -406,8 +409,10 @@ class Gen:
                     else:
                         feat.add("err:dup-ns")
                 cfg = []
-                if r.random() < 0.2:
+                if r.random() < (0.25 if t not in self.targets else 0.04):
                     names = [n for n in ti["vis"]["v"] if not is_private(n)] or ["x"]
+                    if r.random() < 0.06:
+                        names = names + [n for n in ti.get("own_v", {}) if is_private(n)]     # grass lets `with` reach a private !default variable
                     rr2 = r.random()
                     if rr2 < 0.85:
                         pick = [n for n in names if ti["vis"]["v"].get(n)] or names
@@ -419,6 +424,7 @@ class Gen:
                         cfg.append(("zz", self.v()))
                     feat.add("use-with")
                 head.append(("U", self.spelling(t, ti["partial"]), ns, cfg))
+                self.targets.add(t)
                 if key is not None:
                     nss.setdefault(key, t)
                 else:
@@ -487,6 +493,7 @@ class Gen:
     def project(self):
         r = self.rng
         self.val, self.pid = 0, 0
+        self.targets = set()
         n = r.choice([1, 2, 2, 3, 3, 4, 4, 5])
         names = MODS[:n]
         info, mods, feat = {}, [], set()
@@ -530,6 +537,7 @@ class Gen:
         """main uses `mid` and `a`; mid only forwards a (prefix / show / hide): every candidate name probed through both"""
         r = self.rng
         self.val, self.pid = 0, 0
+        self.targets = set()
         info, feat = {}, set()
         a = self.module("a", [], info, feat)
         pfx = r.choice(PFXS + [None, None])
@@ -1049,7 +1057,7 @@ def run(tier, seed):
         failing += judge(ck, res)
         vs = []
         for r in res:
-            if r is not None and ck.rng.random() < 0.5:
+            if r is not None and ck.rng.random() < (0.35 if tier == "quick" else 0.15):
                 vs += gen.variants(r["proj"], r["now"]["status"] == "ok")
         if vs:
             failing += judge(ck, evaluate(ck, pool, vs, tier))
